@@ -76,7 +76,7 @@ var labelCode = map[string]int{
 	"run.swapT.panic": 18, "run.unreg": 19, "unreg.delete": 20, "run.term": 21, "cb.term": 22, "run.exit": 23,
 	"kill.load": 24, "kill.swapZ": 25, "kill.storeT": 26, "kill.swapT": 27, "kill.unreg": 28, "kill.spawn": 29,
 	"kill.term.start": 30, "kill.term.exit": 31, "spawn.init": 32, "cb.init": 33, "spawn.sleep": 34, "spawn.store": 35,
-	"mpsc.limit": 36,
+	"mpsc.limit": 37, "call.state": 36,
 }
 
 // ---- the process under test -----------------------------------------------------------
